@@ -220,33 +220,41 @@ impl<'a> Tokinizer<'a> {
             return;
         }
         
+        /* Expression starts after the assignment operator, otherwise whole line is the expression */
         for (token_index, token) in self.tokens.iter().enumerate() {
-            match token.deref() {
-                TokenType::Operator('=') | 
-                TokenType::Operator('(')=> {
-                    index = token_index as usize + 1;
-                    break;
-                },
-                _ => ()
-            };
+            if let TokenType::Operator('=') = token.deref() {
+                index = token_index as usize + 1;
+                break;
+            }
         }
 
         if index + 1 >= self.tokens.len() {
             return;
         }
 
-        if let TokenType::Operator('(') = self.tokens[index].deref() {
-            index += 1;
-        }
+        /* Expression can not start with an operator, zero is used for the left side */
+        match self.tokens[index].deref() {
+            TokenType::Operator('(') => (),
+            TokenType::Operator(_) => self.tokens.insert(index, Rc::new(TokenType::Number(0.0, NumberType::Decimal))),
+            _ => ()
+        };
 
         let mut operator_required = false;
 
-        if let TokenType::Operator(_) = self.tokens[index].deref() {
-            self.tokens.insert(index, Rc::new(TokenType::Number(0.0, NumberType::Decimal)));
-        }
-
         while index < self.tokens.len() {
             match self.tokens[index].deref() {
+                /* Closing parenthesis is end of an operand */
+                TokenType::Operator(')') => operator_required = true,
+
+                /* Opening parenthesis is start of an operand */
+                TokenType::Operator('(') => {
+                    if operator_required {
+                        log::debug!("Added missing operator between two token");
+                        self.tokens.insert(index, Rc::new(TokenType::Operator('+')));
+                        index += 1;
+                    }
+                    operator_required = false;
+                },
                 TokenType::Operator(_) => operator_required = false,
                 _ => {
                     if operator_required {
